@@ -1119,4 +1119,648 @@ theorem pathLines_getLast (a : Int) (nodes : List Int) (hne : nodes ≠ []) :
       · rw [hz2]; simp [List.getLast?_cons_cons]
 
 
+
+/-! ### non-circular start selection -/
+
+theorem nodeCount_normL (v : Int) (l : List Line) : nodeCount v (l.map normL) = nodeCount v l := by
+  induction l with
+  | nil => rfl
+  | cons a t ih =>
+    obtain ⟨x, y⟩ := a
+    simp only [List.map_cons, nodeCount, ih, normL]
+    by_cases h : x ≤ y <;> simp [h] <;> omega
+
+theorem nodeCount_perm (v : Int) (l l' : List Line) (h : l.Perm l') : nodeCount v l = nodeCount v l' := by
+  induction h with
+  | nil => rfl
+  | cons x _ ih => simp only [nodeCount, ih]
+  | swap x y l => simp only [nodeCount]; omega
+  | trans _ _ ih1 ih2 => exact ih1.trans ih2
+
+theorem nodeCount_pos_of_mem (l : Line) (ls : List Line) (h : l ∈ ls) :
+    1 ≤ nodeCount l.1 ls ∧ 1 ≤ nodeCount l.2 ls := by
+  induction ls with
+  | nil => cases h
+  | cons a t ih =>
+    simp only [nodeCount]
+    rcases List.mem_cons.mp h with rfl | h
+    · simp; constructor <;> omega
+    · have := ih h; constructor <;> omega
+
+/-- a node occurring once in a path is one of its two ends -/
+theorem nodeCount_path_eq_one (v : Int) (nodes : List Int) (h : nodeCount v (pathLines nodes) = 1) :
+    nodes.head? = some v ∨ nodes.getLast? = some v := by
+  induction nodes with
+  | nil => simp [pathLines, nodeCount] at h
+  | cons a t ih =>
+    cases t with
+    | nil => simp [pathLines, nodeCount] at h
+    | cons b t' =>
+      simp only [pathLines, nodeCount] at h
+      by_cases hva : a = v
+      · left; simp [hva]
+      · right
+        simp only [hva, if_false, Nat.zero_add] at h
+        cases t' with
+        | nil =>
+          simp only [pathLines, nodeCount, Nat.add_zero] at h
+          by_cases hvb : b = v
+          · simp [hvb]
+          · simp [hvb] at h
+        | cons c t'' =>
+          by_cases hvb : b = v
+          · exfalso
+            simp only [hvb, if_true, pathLines, nodeCount] at h
+            omega
+          · simp only [hvb, if_false, Nat.zero_add] at h
+            rcases ih h with h' | h'
+            · simp at h'; exact absurd h' hvb
+            · rw [List.getLast?_cons_cons]; exact h'
+
+theorem pathLines_append_singleton (l : List Int) (a b : Int) :
+    pathLines (l ++ [a, b]) = pathLines (l ++ [a]) ++ [(a, b)] := by
+  induction l with
+  | nil => simp [pathLines]
+  | cons x t ih =>
+    cases t with
+    | nil => simp [pathLines]
+    | cons y t' =>
+      have := ih
+      simp only [List.cons_append, pathLines] at this ⊢
+      rw [this]
+
+theorem pathLines_reverse (l : List Int) :
+    pathLines l.reverse = ((pathLines l).map flipL).reverse := by
+  induction l with
+  | nil => simp [pathLines]
+  | cons a t ih =>
+    cases t with
+    | nil => simp [pathLines]
+    | cons b t' =>
+      simp only [List.reverse_cons, List.append_assoc, List.singleton_append] at ih ⊢
+      rw [pathLines_append_singleton, ih]
+      simp [pathLines, flipL]
+
+theorem pathLines_reverse_norm (l : List Int) :
+    ((pathLines l.reverse).map normL).Perm ((pathLines l).map normL) := by
+  rw [pathLines_reverse, List.map_reverse, List.map_map]
+  have : (normL ∘ flipL) = normL := by funext x; exact normL_flip x
+  rw [this]
+  exact List.reverse_perm _
+
+
+
+theorem findEndLine_spec (all : List Line) (ix : List (Nat × Line)) (j : Nat) (l : Line)
+    (h : findEndLine all ix = some (j, l)) : nodeCount l.1 all = 1 ∨ nodeCount l.2 all = 1 := by
+  induction ix with
+  | nil => simp [findEndLine] at h
+  | cons a t ih =>
+    obtain ⟨k, m⟩ := a
+    simp only [findEndLine] at h
+    split at h
+    · rename_i hc; cases h; exact hc
+    · exact ih h
+
+theorem findEndLine_isSome (all : List Line) (ix : List (Nat × Line))
+    (h : ∃ jl ∈ ix, nodeCount jl.2.1 all = 1 ∨ nodeCount jl.2.2 all = 1) :
+    ∃ j l, findEndLine all ix = some (j, l) := by
+  induction ix with
+  | nil => obtain ⟨jl, hm, _⟩ := h; cases hm
+  | cons a t ih =>
+    obtain ⟨k, m⟩ := a
+    simp only [findEndLine]
+    by_cases hc : nodeCount m.1 all = 1 ∨ nodeCount m.2 all = 1
+    · exact ⟨k, m, by simp [hc]⟩
+    · simp only [hc, if_false]
+      apply ih
+      obtain ⟨jl, hm, hcc⟩ := h
+      rcases List.mem_cons.mp hm with rfl | hm
+      · exact absurd hcc hc
+      · exact ⟨jl, hm, hcc⟩
+
+theorem nodeCount_zero_of_not_mem (v : Int) (nodes : List Int) (h : v ∉ nodes) :
+    nodeCount v (pathLines nodes) = 0 := by
+  induction nodes with
+  | nil => rfl
+  | cons a t ih =>
+    cases t with
+    | nil => rfl
+    | cons b t' =>
+      have hva : a ≠ v := fun e => h (by simp [e])
+      have hvb : b ≠ v := fun e => h (by simp [e])
+      simp only [pathLines, nodeCount, hva, hvb, if_false]
+      have := ih (fun hm => h (List.mem_cons_of_mem _ hm))
+      omega
+
+theorem map_normL_snd_enumFrom' (i : Nat) (l : List Line) :
+    (enumFrom' i l).map (fun jl => normL jl.2) = l.map normL := by
+  conv => rhs; rw [← map_snd_enumFrom' i l]
+  rw [List.map_map]; rfl
+
+/-- oriented completeness: the selected first column, oriented as coded, starts at the head of the path -/
+theorem sort_chain_from (a0 a1 : Int) (t : List Int) (lines : List Line) (check : Bool)
+    (hnd : (a0 :: a1 :: t).Nodup)
+    (hperm : (lines.map normL).Perm ((pathLines (a0 :: a1 :: t)).map normL))
+    (j : Nat) (l : Line) (hf : findEndLine lines (enumFrom' 0 lines) = some (j, l))
+    (hstart : (if nodeCount l.1 lines > 1 then flipL l else l).1 = a0) :
+    ∃ out, sortPointPairs lines check false = .ok out
+      ∧ out.map (·.line) = pathLines (a0 :: a1 :: t) := by
+  have ha0 : a0 ∉ a1 :: t := (List.nodup_cons.mp hnd).1
+  have hab : a0 ≠ a1 := fun e => ha0 (by simp [e])
+  have hm := findEndLine_mem _ _ _ _ hf
+  have hl : l ∈ lines := by
+    have := (mem_enumFrom' 0 lines j l).mp hm
+    exact List.mem_of_getElem? this.2
+  -- the oriented first line is (a0, a1)
+  obtain ⟨f, hfdef⟩ : ∃ f, f = (if nodeCount l.1 lines > 1 then flipL l else l) := ⟨_, rfl⟩
+  have hfl : normL f = normL l := by
+    rw [hfdef]; split
+    · exact normL_flip l
+    · rfl
+  have hf1 : f.1 = a0 := by rw [hfdef]; exact hstart
+  have hfe : f = (a0, a1) := by
+    have : normL l ∈ (pathLines (a0 :: a1 :: t)).map normL :=
+      hperm.mem_iff.mp (List.mem_map.mpr ⟨l, hl, rfl⟩)
+    obtain ⟨e, he, hne⟩ := List.mem_map.mp this
+    have hcases := normL_eq f e (by rw [hfl, hne])
+    simp only [pathLines, List.mem_cons] at he
+    rcases he with rfl | he
+    · rcases hcases with h | h
+      · exact h
+      · rw [h] at hf1; simp only [flipL] at hf1; exact absurd hf1.symm hab
+    · exfalso
+      have hmem := mem_pathLines _ _ he
+      rcases hcases with h | h
+      · rw [h] at hf1; exact ha0 (hf1 ▸ hmem.1)
+      · rw [h] at hf1; simp only [flipL] at hf1; exact ha0 (hf1 ▸ hmem.2)
+  -- the remaining columns are the rest of the path
+  have hnd' : ((enumFrom' 0 lines).map (·.1)).Nodup := by
+    rw [map_fst_enumFrom']; exact List.nodup_range'
+  have hperm2 := (removeIdx_perm j l _ hm hnd').map (fun jl => normL jl.2)
+  rw [map_normL_snd_enumFrom'] at hperm2
+  simp only [List.map_cons] at hperm2
+  have hrem : ((removeIdx j (enumFrom' 0 lines)).map (fun jl => normL jl.2)).Perm
+      ((pathLines (a1 :: t)).map normL) := by
+    have h3 := hperm2.symm.trans hperm
+    simp only [pathLines, List.map_cons] at h3
+    rw [← hfl, hfe] at h3
+    exact List.Perm.cons_inv h3
+  obtain ⟨out, hw, hout⟩ := walk_path t a1 (removeIdx j (enumFrom' 0 lines))
+    (removeIdx j (enumFrom' 0 lines)).length (List.nodup_cons.mp hnd).2 (le_refl _) hrem
+  cases lines with
+  | nil => cases hl
+  | cons l0 tl =>
+    by_cases hcnt : nodeCount l.1 (l0 :: tl) > 1
+    · simp only [hcnt, if_true] at hfdef
+      refine ⟨⟨j, flipL l, true⟩ :: out, ?_, ?_⟩
+      · unfold sortPointPairs
+        simp only [Bool.false_eq_true, if_false, hf, hcnt, if_true]
+        rw [← hfdef, hfe]
+        simp only [hw]
+        simp
+      · simp [hout, ← hfdef, hfe, pathLines]
+    · simp only [hcnt, if_false] at hfdef
+      refine ⟨⟨j, l, false⟩ :: out, ?_, ?_⟩
+      · unfold sortPointPairs
+        simp only [Bool.false_eq_true, if_false, hf, hcnt]
+        rw [← hfdef, hfe]
+        simp only [hw]
+        simp
+      · simp [hout, ← hfdef, hfe, pathLines]
+
+
+
+def dnLR1 (e : P2 × P2) : Int := if isLR e && decide (0 < cross2 e.1 e.2) then 1 else 0
+def dnRL1 (e : P2 × P2) : Int := if isRL e && decide (cross2 e.1 e.2 < 0) then 1 else 0
+
+theorem vertexSgn_of_x_ne {v : P2} (h : v.1 ≠ 0) : vertexSgn v = sgn v.1 := by
+  have : sgn v.1 ≠ 0 := fun h' => h (sgn_eq_zero_iff.mp h')
+  simp [vertexSgn, this]
+
+/-- per edge, in generic position (no end point on the vertical line, not seen edge-on when it
+    meets the line): the coded contribution and the half-plane jump in terms of the four kinds of
+    crossings -/
+theorem edge_generic (e : P2 × P2) (h1 : e.1.1 ≠ 0) (h2 : e.2.1 ≠ 0)
+    (hoff : (isLR e || isRL e) = true → cross2 e.1 e.2 ≠ 0) :
+    contrib e = -upLR1 e + upRL1 e + dnLR1 e - dnRL1 e
+    ∧ vsDiff e = 2 * upLR1 e - 2 * upRL1 e + 2 * dnLR1 e - 2 * dnRL1 e
+    ∧ straddle1 e = upLR1 e + upRL1 e + dnLR1 e + dnRL1 e
+    ∧ 0 ≤ upLR1 e ∧ 0 ≤ upRL1 e ∧ 0 ≤ dnLR1 e ∧ 0 ≤ dnRL1 e
+    ∧ (active e = true → edgeSgn e ≠ 0) := by
+  obtain ⟨a, b⟩ := e
+  simp only at h1 h2 hoff
+  simp only [contrib, active, vsDiff, edgeSgn, vertexSgn_of_x_ne h1, vertexSgn_of_x_ne h2,
+    upLR1, upRL1, dnLR1, dnRL1, straddle1, isLR, isRL] at hoff ⊢
+  rcases lt_or_gt_of_ne h1 with ha | ha <;> rcases lt_or_gt_of_ne h2 with hb | hb
+  · -- both left
+    have na : ¬ 0 < a.1 := by linarith
+    have nb : ¬ 0 < b.1 := by linarith
+    simp [sgn_neg ha, sgn_neg hb, ha, hb, na, nb]
+  · -- left to right
+    have na : ¬ 0 < a.1 := by linarith
+    have nb : ¬ b.1 < 0 := by linarith
+    have hc := hoff (by simp [ha, hb])
+    rcases lt_or_gt_of_ne hc with hcr | hcr
+    · have : ¬ 0 < cross2 a b := by linarith
+      simp [sgn_neg ha, sgn_pos hb, ha, hb, na, nb, hcr, this, sgn_neg hcr]
+    · have : ¬ cross2 a b < 0 := by linarith
+      simp [sgn_neg ha, sgn_pos hb, ha, hb, na, nb, hcr, this, sgn_pos hcr]
+  · -- right to left
+    have na : ¬ a.1 < 0 := by linarith
+    have nb : ¬ 0 < b.1 := by linarith
+    have hc := hoff (by simp [ha, hb])
+    rcases lt_or_gt_of_ne hc with hcr | hcr
+    · have : ¬ 0 < cross2 a b := by linarith
+      simp [sgn_pos ha, sgn_neg hb, ha, hb, na, nb, hcr, this, sgn_neg hcr]
+    · have : ¬ cross2 a b < 0 := by linarith
+      simp [sgn_pos ha, sgn_neg hb, ha, hb, na, nb, hcr, this, sgn_pos hcr]
+  · -- both right
+    have na : ¬ a.1 < 0 := by linarith
+    have nb : ¬ b.1 < 0 := by linarith
+    simp [sgn_pos ha, sgn_pos hb, ha, hb, na, nb]
+
+theorem isum_lin4 {α : Type} (c1 c2 c3 c4 : Int) (f g1 g2 g3 g4 : α → Int) (l : List α)
+    (h : ∀ e ∈ l, f e = c1 * g1 e + c2 * g2 e + c3 * g3 e + c4 * g4 e) :
+    isum (l.map f) = c1 * isum (l.map g1) + c2 * isum (l.map g2) + c3 * isum (l.map g3) + c4 * isum (l.map g4) := by
+  induction l with
+  | nil => simp [isum]
+  | cons a t ih =>
+    simp only [List.map_cons, isum]
+    rw [h a (by simp), ih (fun e he => h e (by simp [he]))]
+    ring
+
+theorem isum_nonneg' {α : Type} (f : α → Int) (l : List α) (h : ∀ e ∈ l, 0 ≤ f e) : 0 ≤ isum (l.map f) := by
+  induction l with
+  | nil => simp [isum]
+  | cons a t ih =>
+    simp only [List.map_cons, isum]
+    have := h a (by simp)
+    have := ih (fun e he => h e (by simp [he]))
+    omega
+
+/-- the classical identity: twice the winding number = twice the signed number of crossings of the
+    upward ray, and the line through the origin is crossed equally often in both directions -/
+theorem wind2_crossings (l : List P2) (hgen : ∀ v ∈ l, v.1 ≠ 0)
+    (hoff : ∀ e ∈ cycPairs l, (isLR e || isRL e) = true → cross2 e.1 e.2 ≠ 0) :
+    wind2 (cycPairs l) = 2 * (upRL (cycPairs l) - upLR (cycPairs l))
+    ∧ straddleCount (cycPairs l) = 2 * (upLR (cycPairs l) + isum ((cycPairs l).map dnLR1))
+    ∧ straddleCount (cycPairs l) = upLR (cycPairs l) + upRL (cycPairs l)
+        + isum ((cycPairs l).map dnLR1) + isum ((cycPairs l).map dnRL1)
+    ∧ 0 ≤ upLR (cycPairs l) ∧ 0 ≤ upRL (cycPairs l)
+    ∧ 0 ≤ isum ((cycPairs l).map dnLR1) ∧ 0 ≤ isum ((cycPairs l).map dnRL1) := by
+  have hg : ∀ e ∈ cycPairs l, _ := fun e he =>
+    edge_generic e (hgen _ (mem_cycPairs l e he).1) (hgen _ (mem_cycPairs l e he).2) (hoff e he)
+  have s1 : wind2 (cycPairs l) = (-1) * upLR (cycPairs l) + 1 * upRL (cycPairs l)
+      + 1 * isum ((cycPairs l).map dnLR1) + (-1) * isum ((cycPairs l).map dnRL1) :=
+    isum_lin4 (-1) 1 1 (-1) contrib upLR1 upRL1 dnLR1 dnRL1 (cycPairs l)
+      (fun e he => by rw [(hg e he).1]; ring)
+  have s2 : isum ((cycPairs l).map vsDiff) = 2 * upLR (cycPairs l) + (-2) * upRL (cycPairs l)
+      + 2 * isum ((cycPairs l).map dnLR1) + (-2) * isum ((cycPairs l).map dnRL1) :=
+    isum_lin4 2 (-2) 2 (-2) vsDiff upLR1 upRL1 dnLR1 dnRL1 (cycPairs l)
+      (fun e he => by rw [(hg e he).2.1]; ring)
+  have s3 : straddleCount (cycPairs l) = 1 * upLR (cycPairs l) + 1 * upRL (cycPairs l)
+      + 1 * isum ((cycPairs l).map dnLR1) + 1 * isum ((cycPairs l).map dnRL1) :=
+    isum_lin4 1 1 1 1 straddle1 upLR1 upRL1 dnLR1 dnRL1 (cycPairs l)
+      (fun e he => by rw [(hg e he).2.2.1]; ring)
+  have e4 : isum ((cycPairs l).map vsDiff) = 0 := isum_tele_cyc vertexSgn l
+  have n1 := isum_nonneg' upLR1 (cycPairs l) (fun e he => (hg e he).2.2.2.1)
+  have n2 := isum_nonneg' upRL1 (cycPairs l) (fun e he => (hg e he).2.2.2.2.1)
+  have n3 := isum_nonneg' dnLR1 (cycPairs l) (fun e he => (hg e he).2.2.2.2.2.1)
+  have n4 := isum_nonneg' dnRL1 (cycPairs l) (fun e he => (hg e he).2.2.2.2.2.2.1)
+  rw [e4] at s2
+  refine ⟨by omega, by omega, by omega, n1, n2, n3, n4⟩
+
+/-- the coded answer in generic position: "signed crossing number of the upward ray ≠ 0" -/
+theorem pip_core_generic (l : List P2) (d : Bool) (hgen : ∀ v ∈ l, v.1 ≠ 0)
+    (hoff : ∀ e ∈ cycPairs l, (isLR e || isRL e) = true → cross2 e.1 e.2 ≠ 0) :
+    pipEdges (cycPairs l) d = decide (upRL (cycPairs l) ≠ upLR (cycPairs l)) := by
+  have h0 : ∀ e ∈ cycPairs l, ¬ (e.1.1 = 0 ∧ e.1.2 = 0) ∧ ¬ (e.2.1 = 0 ∧ e.2.2 = 0) := fun e he =>
+    ⟨fun hz => hgen _ (mem_cycPairs l e he).1 hz.1, fun hz => hgen _ (mem_cycPairs l e he).2 hz.1⟩
+  have h1 : ∀ e ∈ cycPairs l, active e = true → edgeSgn e ≠ 0 := fun e he =>
+    (edge_generic e (hgen _ (mem_cycPairs l e he).1) (hgen _ (mem_cycPairs l e he).2) (hoff e he)).2.2.2.2.2.2.2
+  rw [pipEdges_reduce _ _ h0 h1]
+  have hw := (wind2_crossings l hgen hoff).1
+  by_cases hc : upRL (cycPairs l) = upLR (cycPairs l)
+  · have : wind2 (cycPairs l) = 0 := by omega
+    simp [this, hc]
+  · have : wind2 (cycPairs l) ≠ 0 := by omega
+    simp [this, hc]
+
+/-- crossing height of a left-to-right edge -/
+theorem intercept_pos_iff (a b : P2) (ha : a.1 < 0) (hb : 0 < b.1) :
+    0 < a.2 + (0 - a.1) * (b.2 - a.2) / (b.1 - a.1) ↔ cross2 a b < 0 := by
+  have hd : 0 < b.1 - a.1 := by linarith
+  have : a.2 + (0 - a.1) * (b.2 - a.2) / (b.1 - a.1) = (-(cross2 a b)) / (b.1 - a.1) := by
+    simp only [cross2]; field_simp; ring
+  rw [this]
+  constructor
+  · intro h
+    have h2 := mul_pos h hd
+    rw [div_mul_cancel₀ _ (ne_of_gt hd)] at h2
+    linarith
+  · intro h
+    exact div_pos (by linarith) hd
+
+
+
+/-! ## Part 5: sort_points_on_line -/
+
+theorem insertByKey_perm (x : Nat × Rat) (l : List (Nat × Rat)) : (insertByKey x l).Perm (x :: l) := by
+  induction l with
+  | nil => simp [insertByKey]
+  | cons y t ih =>
+    simp only [insertByKey]
+    split
+    · exact List.Perm.refl _
+    · exact (List.Perm.cons y ih).trans (List.Perm.swap x y t)
+
+theorem sortByKey_perm (l : List (Nat × Rat)) : (sortByKey l).Perm l := by
+  induction l with
+  | nil => simp [sortByKey]
+  | cons x t ih => exact (insertByKey_perm x _).trans (List.Perm.cons x ih)
+
+theorem insertByKey_sorted (x : Nat × Rat) (l : List (Nat × Rat))
+    (h : l.Pairwise (fun a b => a.2 ≤ b.2)) : (insertByKey x l).Pairwise (fun a b => a.2 ≤ b.2) := by
+  induction l with
+  | nil => simp [insertByKey]
+  | cons y t ih =>
+    simp only [insertByKey]
+    have hy := List.pairwise_cons.mp h
+    split
+    · rename_i hxy
+      refine List.pairwise_cons.mpr ⟨?_, h⟩
+      intro b hb
+      rcases List.mem_cons.mp hb with rfl | hb
+      · exact hxy
+      · exact le_trans hxy (hy.1 b hb)
+    · rename_i hxy
+      refine List.pairwise_cons.mpr ⟨?_, ih hy.2⟩
+      intro b hb
+      have := (insertByKey_perm x t).mem_iff.mp hb
+      rcases List.mem_cons.mp this with rfl | hb'
+      · exact le_of_lt (not_le.mp hxy)
+      · exact hy.1 b hb'
+
+theorem sortByKey_sorted (l : List (Nat × Rat)) : (sortByKey l).Pairwise (fun a b => a.2 ≤ b.2) := by
+  induction l with
+  | nil => simp [sortByKey]
+  | cons x t ih => exact insertByKey_sorted x _ ih
+
+/-- the returned indices are a permutation of `0 … n-1` -/
+theorem argsort_perm (keys : List Rat) :
+    ((sortByKey (enumFrom' 0 keys)).map (·.1)).Perm (List.range keys.length) := by
+  have := (sortByKey_perm (enumFrom' 0 keys)).map (·.1)
+  rw [map_fst_enumFrom', ← List.range_eq_range'] at this
+  exact this
+
+/-- keys that are an affine function `κ t + β` of parameters `t`: the argsort orders the parameters
+    increasingly (κ > 0) or decreasingly (κ < 0) -/
+theorem argsort_affine (ts : List Rat) (κ β : Rat) :
+    let out := (sortByKey (enumFrom' 0 (ts.map (fun t => κ * t + β)))).map (·.1)
+    (0 < κ → (out.map (fun i => ts.getD i 0)).Pairwise (· ≤ ·))
+    ∧ (κ < 0 → (out.map (fun i => ts.getD i 0)).Pairwise (· ≥ ·)) := by
+  intro out
+  have hs := sortByKey_sorted (enumFrom' 0 (ts.map (fun t => κ * t + β)))
+  have hmem : ∀ x ∈ sortByKey (enumFrom' 0 (ts.map (fun t => κ * t + β))), x.2 = κ * ts.getD x.1 0 + β := by
+    intro x hx
+    have hx' := (sortByKey_perm _).mem_iff.mp hx
+    have := (mem_enumFrom' 0 _ x.1 x.2).mp hx'
+    simp only [Nat.sub_zero, List.getElem?_map] at this
+    cases hg : ts[x.1]? with
+    | none => simp [hg] at this
+    | some t =>
+      simp only [hg, Option.map_some, Option.some.injEq] at this
+      simp [List.getD, hg, ← this.2]
+  simp only [out, List.map_map]
+  constructor
+  · intro hk
+    rw [List.pairwise_map]
+    refine List.Pairwise.imp_of_mem ?_ hs
+    intro a b ha hb hab
+    rw [hmem a ha, hmem b hb] at hab
+    simp only [Function.comp]
+    by_contra hc
+    have := mul_lt_mul_of_pos_left (not_le.mp hc) hk
+    linarith
+  · intro hk
+    rw [List.pairwise_map]
+    refine List.Pairwise.imp_of_mem ?_ hs
+    intro a b ha hb hab
+    rw [hmem a ha, hmem b hb] at hab
+    simp only [Function.comp, ge_iff_le]
+    by_contra hc
+    have := mul_lt_mul_of_neg_left (not_le.mp hc) hk
+    linarith
+
+
+
+def sigmaT (T : P3) : Rat := if T.1 = 0 ∧ T.2.1 = 0 ∧ T.2.2 < 0 then -1 else 1
+
+theorem sigmaT_cases (T : P3) : sigmaT T = 1 ∨ sigmaT T = -1 := by
+  unfold sigmaT; split <;> simp
+
+theorem lineKeys_spec (pts : List P3) (keys : List Rat) (T : P3) (h : lineKeys pts = some (keys, T)) :
+    T ∈ pts.map (fun p => sub3 p (mean3 pts))
+    ∧ keys = (pts.map (fun p => sub3 p (mean3 pts))).map (fun w => sigmaT T * dot3 w T) := by
+  unfold lineKeys at h
+  simp only at h
+  cases ha : argmaxFirst nsq3 (pts.map (fun p => sub3 p (mean3 pts))) with
+  | none => simp [ha] at h
+  | some T' =>
+    simp only [ha, Option.some.injEq, Prod.mk.injEq] at h
+    obtain ⟨h1, h2⟩ := h
+    subst h2
+    exact ⟨argmaxFirst_mem _ _ _ ha, by rw [← h1]; rfl⟩
+
+theorem sum3_line (o d : P3) (ts : List Rat) :
+    sum3 (ts.map (fun t => add3 o (scale3 t d)))
+      = add3 (scale3 (ts.length : Rat) o) (scale3 (rsum ts) d) := by
+  induction ts with
+  | nil => simp [sum3, add3, scale3, rsum]
+  | cons t l ih =>
+    simp only [List.map_cons, sum3, ih, rsum, List.length_cons]
+    simp only [add3, scale3, Prod.mk.injEq]
+    push_cast
+    refine ⟨by ring, by ring, by ring⟩
+
+/-- centred points of a parametrised line: `(t - t̄) d` -/
+theorem sub_mean_line (o d : P3) (ts : List Rat) (hne : ts ≠ []) (t : Rat) :
+    sub3 (add3 o (scale3 t d)) (mean3 (ts.map (fun t => add3 o (scale3 t d))))
+      = scale3 (t - rsum ts / (ts.length : Rat)) d := by
+  have hn : (ts.length : Rat) ≠ 0 := by
+    have : ts.length ≠ 0 := by simpa using hne
+    exact_mod_cast this
+  simp only [mean3, sum3_line, List.length_map]
+  simp only [add3, scale3, sub3, Prod.mk.injEq]
+  refine ⟨by field_simp; ring, by field_simp; ring, by field_simp; ring⟩
+
+theorem dot3_scale (a b : Rat) (d : P3) : dot3 (scale3 a d) (scale3 b d) = a * b * nsq3 d := by
+  simp only [dot3, scale3, nsq3]; ring
+
+theorem scale3_eq_zero (a : Rat) (d : P3) (h : scale3 a d = (0, 0, 0)) : a = 0 ∨ d = (0, 0, 0) := by
+  by_cases ha : a = 0
+  · exact Or.inl ha
+  · right
+    simp only [scale3, Prod.mk.injEq] at h
+    obtain ⟨h1, h2, h3⟩ := h
+    have e1 := (mul_eq_zero.mp h1).resolve_left ha
+    have e2 := (mul_eq_zero.mp h2).resolve_left ha
+    have e3 := (mul_eq_zero.mp h3).resolve_left ha
+    exact Prod.ext e1 (Prod.ext e2 e3)
+
+
+
+
+/-- what the general branch returns -/
+theorem sortPointsOnLine_ok (a b : P3) (t : List P3) (tol : Rat) (out : List Nat)
+    (h : sortPointsOnLine (a :: b :: t) tol = .ok out) :
+    ∃ keys T, lineKeys (a :: b :: t) = some (keys, T) ∧ T ≠ (0, 0, 0)
+      ∧ out = (sortByKey (enumFrom' 0 keys)).map (·.1) := by
+  unfold sortPointsOnLine at h
+  simp only at h
+  split at h
+  · cases h
+  · cases hk : lineKeys (a :: b :: t) with
+    | none => simp [hk] at h
+    | some kt =>
+      obtain ⟨keys, T⟩ := kt
+      simp only [hk] at h
+      split at h
+      · cases h
+      · rename_i hT
+        split at h
+        · cases h
+        · cases h
+          exact ⟨keys, T, rfl, hT, rfl⟩
+
+
+
+/-! ## Part 6: sort_point_plane in a plane z = const -/
+
+theorem angRegion_cases (u : P2) :
+    (angRegion u = 0 ∧ u.1 < 0) ∨ (angRegion u = 2 ∧ 0 < u.1) ∨ (angRegion u = 1 ∧ u.1 = 0) ∨ (angRegion u = 3 ∧ u.1 = 0) := by
+  unfold angRegion
+  rcases lt_trichotomy u.1 0 with h | h | h
+  · left; simp [h]
+  · right; right
+    have h1 : ¬ u.1 < 0 := by linarith
+    have h2 : ¬ 0 < u.1 := by linarith
+    by_cases h3 : u.2 < 0 <;> simp [h1, h2, h3, h]
+  · right; left
+    have h1 : ¬ u.1 < 0 := by linarith
+    simp [h1, h]
+
+theorem angLt_iff (u w : P2) : angLt u w = true ↔
+    angRegion u < angRegion w ∨ (angRegion u = angRegion w ∧ (angRegion u = 0 ∨ angRegion u = 2) ∧ cross2 u w < 0) := by
+  simp [angLt, and_assoc]
+
+theorem cross2_antisymm (u w : P2) : cross2 w u = -cross2 u w := by simp only [cross2]; ring
+
+theorem angLt_asymm (u w : P2) (h : angLt u w = true) : angLt w u = false := by
+  rw [Bool.eq_false_iff]
+  intro h'
+  rw [angLt_iff] at h h'
+  rcases h with h | ⟨h1, _, h3⟩ <;> rcases h' with g | ⟨g1, _, g3⟩
+  · omega
+  · omega
+  · omega
+  · rw [cross2_antisymm] at g3; linarith
+
+theorem region0_x {u : P2} (h : angRegion u = 0) : u.1 < 0 := by
+  rcases angRegion_cases u with a | a | a | a
+  · exact a.2
+  all_goals (have := a.1; omega)
+
+theorem region2_x {u : P2} (h : angRegion u = 2) : 0 < u.1 := by
+  rcases angRegion_cases u with a | a | a | a
+  · have := a.1; omega
+  · exact a.2
+  all_goals (have := a.1; omega)
+
+/-- negative transitivity: the order by `arctan2` is a weak order -/
+theorem angLt_negtrans (z y x : P2) (h : angLt z x = true) : angLt y x = true ∨ angLt z y = true := by
+  rw [angLt_iff] at h
+  simp only [angLt_iff]
+  rcases h with h | ⟨h1, h2, h3⟩
+  · by_cases hy : angRegion y < angRegion x
+    · exact Or.inl (Or.inl hy)
+    · exact Or.inr (Or.inl (by omega))
+  · rcases lt_trichotomy (angRegion y) (angRegion x) with hy | hy | hy
+    · exact Or.inl (Or.inl hy)
+    · -- all three in the same open half plane
+      have hyz : angRegion z = angRegion y := by omega
+      have hyr : angRegion y = 0 ∨ angRegion y = 2 := by omega
+      by_contra hc
+      simp only [not_or, not_and, not_lt] at hc
+      have c1 : 0 ≤ cross2 y x := hc.1.2 hy hyr
+      have c2 : 0 ≤ cross2 z y := hc.2.2 hyz h2
+      have key : cross2 z x * y.1 = cross2 y x * z.1 + cross2 z y * x.1 := by simp only [cross2]; ring
+      rcases h2 with h0 | h0
+      · have zx := region0_x h0
+        have yx := region0_x (u := y) (by omega)
+        have xx := region0_x (u := x) (by omega)
+        have p1 : cross2 y x * z.1 ≤ 0 := mul_nonpos_of_nonneg_of_nonpos c1 zx.le
+        have p2 : cross2 z y * x.1 ≤ 0 := mul_nonpos_of_nonneg_of_nonpos c2 xx.le
+        have p3 : 0 < cross2 z x * y.1 := mul_pos_of_neg_of_neg h3 yx
+        linarith
+      · have zx := region2_x h0
+        have yx := region2_x (u := y) (by omega)
+        have xx := region2_x (u := x) (by omega)
+        have p1 : 0 ≤ cross2 y x * z.1 := mul_nonneg c1 zx.le
+        have p2 : 0 ≤ cross2 z y * x.1 := mul_nonneg c2 xx.le
+        have p3 : cross2 z x * y.1 < 0 := mul_neg_of_neg_of_pos h3 yx
+        linarith
+    · exact Or.inr (Or.inl (by omega))
+
+theorem insertByAngle_perm (x : Nat × P2) (l : List (Nat × P2)) : (insertByAngle x l).Perm (x :: l) := by
+  induction l with
+  | nil => simp [insertByAngle]
+  | cons y t ih =>
+    simp only [insertByAngle]
+    split
+    · exact (List.Perm.cons y ih).trans (List.Perm.swap x y t)
+    · exact List.Perm.refl _
+
+theorem sortByAngle_perm (l : List (Nat × P2)) : (sortByAngle l).Perm l := by
+  induction l with
+  | nil => simp [sortByAngle]
+  | cons x t ih => exact (insertByAngle_perm x _).trans (List.Perm.cons x ih)
+
+theorem insertByAngle_sorted (x : Nat × P2) (l : List (Nat × P2))
+    (h : l.Pairwise (fun a b => angLt b.2 a.2 = false)) :
+    (insertByAngle x l).Pairwise (fun a b => angLt b.2 a.2 = false) := by
+  induction l with
+  | nil => simp [insertByAngle]
+  | cons y t ih =>
+    simp only [insertByAngle]
+    have hy := List.pairwise_cons.mp h
+    split
+    · rename_i hyx
+      refine List.pairwise_cons.mpr ⟨?_, ih hy.2⟩
+      intro b hb
+      have := (insertByAngle_perm x t).mem_iff.mp hb
+      rcases List.mem_cons.mp this with rfl | hb'
+      · exact angLt_asymm _ _ hyx
+      · exact hy.1 b hb'
+    · rename_i hyx
+      have hyx' : angLt y.2 x.2 = false := by simpa using hyx
+      refine List.pairwise_cons.mpr ⟨?_, h⟩
+      intro b hb
+      rcases List.mem_cons.mp hb with rfl | hb
+      · exact hyx'
+      · -- x ≤ y ≤ b
+        have hyb := hy.1 b hb
+        rw [Bool.eq_false_iff]
+        intro hbx
+        rcases angLt_negtrans b.2 y.2 x.2 hbx with h1 | h1
+        · rw [hyx'] at h1; cases h1
+        · rw [hyb] at h1; cases h1
+
+theorem sortByAngle_sorted (l : List (Nat × P2)) :
+    (sortByAngle l).Pairwise (fun a b => angLt b.2 a.2 = false) := by
+  induction l with
+  | nil => simp [sortByAngle]
+  | cons x t ih => exact insertByAngle_sorted x _ ih
+
+
 end PorepyVerif.C31
